@@ -61,7 +61,7 @@ _ALIAS = {}
 def _role_alias(F, b):
     """audited sites are also keyed by the ROLE of the function they sit in (found structurally), so that renaming the
     function or moving the statement into a helper of the same role does not orphan the audit"""
-    if id(F) not in _ALIAS:
+    if getattr(F, "_role_alias_memo", None) is None:
         m = {}
         try:
             from rules.c08 import _R
@@ -81,8 +81,8 @@ def _role_alias(F, b):
                 m.setdefault(rb.id, "ROLE:converter-rows")
         except Exception:
             pass
-        _ALIAS[id(F)] = m
-    return _ALIAS[id(F)].get(b.id)
+        F._role_alias_memo = m
+    return F._role_alias_memo.get(b.id)
 
 
 def run(ctx, rep):
